@@ -281,6 +281,32 @@ def sublattices(tier, seed):
         it=[1, 2, 10],
     )  # fmt: skip
     subs.append({'name': 'profiles, fuel-dependent initial mass', 'axes': ax, 'cases': _prod(ax)})
+    # repeated calls on the same model object: every ordered pair (incl. a call repeated) of a fixed
+    # menu of calls, per engine type and parameter set; array lengths repeat on purpose
+    cases = []
+    for eng in ENGINES:
+        for ps in (0, 1):
+            base = dict(eng=eng, ps=ps)
+            prof = dict(base, n=5, spd='accelerating', cr='middle', seg=50000.0, gs=0.0, m=1, it=10)
+            fuel = dict(est='high', mtow='max', lf=1.0, res=1)
+            menu = [
+                dict(base, k='pt', alt=1, dT=1, cr=2, m=1),
+                dict(base, k='pt', alt=5, dT=3, cr=2, m=2),
+                dict(prof, k='ci', prof='level'),
+                dict(prof, k='ci', prof='climb'),
+                dict(prof, k='cf', prof='descent', seg='array'),
+                dict(prof, k='cf', prof='mixed', n=9),
+                dict(prof, k='fr', prof='mixed', **fuel),
+                dict(prof, k='fv', prof='climb', **fuel),
+            ]
+            cases += [dict(k='hist', a=a, b=b) for a in menu for b in menu]
+    subs.append(
+        {
+            'name': 'two calls on one model object',
+            'axes': {'eng': ENGINES, 'ps': [0, 1], 'first call': list(range(8)), 'second call': list(range(8))},
+            'cases': cases,
+        }
+    )
     return subs
 
 
@@ -305,17 +331,21 @@ def worker_init(tier, seed):
     if not same:
         raise HarnessError('unit factors / ISA constants of the tree differ from the digits the reference assumes')
     _STATE['np'] = np
-    models = {}
-    for eng in ENGINES:
-        for i, s in enumerate(PSETS[eng]):
-            # the library's own parameter object, built the two ways the class offers
-            if i == 0:
-                ap = Bada3AircraftParameters(**s['par'])
-            else:
-                ap = Bada3AircraftParameters()
-                ap.assign_parameters_fromdict(dict(s['par']))
-            models[eng, i] = Bada3FuelBurnModel(ap)  # one object per worker: reused across cases
-    _STATE['models'] = models
+    _STATE['cls'] = (Bada3AircraftParameters, Bada3FuelBurnModel)
+
+
+def _new_model(case):
+    """A fresh model per case (so every recorded case replays on its own); reuse of one object
+    across calls is enumerated explicitly by the history sub-lattice."""
+    params_cls, model_cls = _STATE['cls']
+    s = _pset(case)
+    # the library's own parameter object, built the two ways the class offers
+    if case['ps'] == 0:
+        ap = params_cls(**s['par'])
+    else:
+        ap = params_cls()
+        ap.assign_parameters_fromdict(dict(s['par']))
+    return model_cls(ap)
 
 
 def _arrays(inp):
@@ -334,10 +364,9 @@ def _arrays(inp):
 _ORDER = ['temperature', 'altitude', 'v_tas', 'rocd', 'acceleration', 'in_cruise', 'groundspeed']
 
 
-def _call_entry(case, inp):
+def _call_entry(case, inp, model):
     """-> (returned mass list | None, recorded sgr calls [(mass list, sgr list)], exception | None)"""
     np = _STATE['np']
-    model = _STATE['models'][case['eng'], case['ps']]
     a = _arrays(inp)
     calls = []
     orig = model.calculate_specific_ground_range
@@ -412,12 +441,11 @@ def _compare_points(par, inp, mass, got_thrust, got_sgr, vio, label):
     return pts, False
 
 
-def _run_point(case):
+def _run_point(case, model):
     np = _STATE['np']
     s = _pset(case)
     inp = point_inputs(case)
     a = _arrays(inp)
-    model = _STATE['models'][case['eng'], case['ps']]
     vio = []
     try:
         thr = model.calculate_thrust(*[a[k] for k in ['mass'] + _ORDER[:-1]])
@@ -438,13 +466,13 @@ def _run_point(case):
     return {'outcome': f'points:{regimes}', 'nontrivial': True, 'violations': vio}
 
 
-def _run_profile(case):
+def _run_profile(case, model):
     s = _pset(case)
     par = s['par']
     inp = profile_inputs(case)
     k = case['k']
     n = case['n']
-    ret, calls, ex = _call_entry(case, inp)
+    ret, calls, ex = _call_entry(case, inp, model)
     if ex is not None:
         v, out = _internal_error(ex, ENTRY[k])
         return {'outcome': out, 'nontrivial': True, 'violations': [v]}
@@ -516,21 +544,25 @@ def _run_profile(case):
     return {'outcome': outcome, 'nontrivial': total > 0, 'violations': vio}
 
 
+def _run_single(case, model):
+    return _run_point(case, model) if case['k'] == 'pt' else _run_profile(case, model)
+
+
 def run_case(case):
-    if case['k'] == 'pt':
-        return _run_point(case)
-    return _run_profile(case)
-
-
-def observe(case):
-    """History independence: the per-worker model objects are reused for every case."""
-    np = _STATE['np']
-    if case['k'] == 'pt':
-        a = _arrays(point_inputs(case))
-        model = _STATE['models'][case['eng'], case['ps']]
+    if case['k'] == 'hist':
+        # two calls on one model object: the second must be judged exactly like a first call
         try:
-            return np.array(model.calculate_specific_ground_range(*[a[k] for k in ['mass'] + _ORDER])).tolist()
+            model = _new_model(case['b'])
         except Exception as ex:
-            return f'{type(ex).__name__}: {ex}'
-    ret, calls, ex = _call_entry(case, profile_inputs(case))
-    return [ret, len(calls)] if ex is None else f'{type(ex).__name__}: {ex}'
+            v, out = _internal_error(ex, 'Bada3FuelBurnModel(Bada3AircraftParameters)')
+            return {'outcome': out, 'nontrivial': True, 'violations': [v]}
+        first = _run_single(case['a'], model)
+        r = _run_single(case['b'], model)
+        r['outcome'] = f'after {case["a"]["k"]} ({first["outcome"].split(":")[0]}): ' + r['outcome'].split(':')[0]
+        return r
+    try:
+        model = _new_model(case)
+    except Exception as ex:
+        v, out = _internal_error(ex, 'Bada3FuelBurnModel(Bada3AircraftParameters)')
+        return {'outcome': out, 'nontrivial': True, 'violations': [v]}
+    return _run_single(case, model)
